@@ -185,10 +185,22 @@ class Gen:
                 self.t(">")
         elif c == 9:
             self.t("(")
-            self.dagarg(d + 1)
-            while self.r.random() < 0.4:
-                if self.out[-1] != "(":
-                    self.t(",") if self.r.random() < 0.9 else None
+            op = self.r.random()
+            if op < 0.75:
+                self.t(self.ident())
+                if self.r.random() < 0.3:
+                    self.t(":", "$" + self.ident())
+            elif op < 0.85:
+                self.t("?")
+            elif op < 0.95:
+                self.t("!cast", "<", self.ident(), ">", "(", self.string(), ")")
+            else:
+                self.dagarg(d + 1)          # (not a dag operator: exercises the error path)
+            first = True
+            while self.r.random() < 0.5 and not self.small():
+                if not first:
+                    self.t(",")
+                first = False
                 self.dagarg(d + 1)
             self.t(")")
         elif c == 10:
